@@ -4,12 +4,15 @@
 -/
 import Driver.Proto
 import DecimalModel.Spec.IEEE
+import DecimalModel.Context
 
 namespace Driver
 open Decimal
 
 structure Step where
   env : Array Dec
+  /-- new context state, when the operation changed it -/
+  ctx : Option Ctx := none
   outcome : Outcome := .ok
   extra : String := ""
   /-- variables whose state is not compared with the model (left undefined by the API). -/
@@ -207,7 +210,7 @@ def setModeOp (env : Array Dec) (zs ms : String) : Step :=
     { env := env.set! zi (setMode z m), spec := andSpec (frameOk env [zi]) canonicalAll, tags := ["setmode"] }
   | _, _ => badStep env "setmode"
 
-def doOp (env : Array Dec) (toks : List String) : Step :=
+def doOpArith (env : Array Dec) (toks : List String) : Step :=
   match toks with
   | [op, z, x, y] =>
     if op == "add" || op == "sub" || op == "mul" || op == "quo" then binOp env op z x y
